@@ -7,7 +7,7 @@ CONSTRAINT TraceConstraint
 POSTCONDITION TraceAccepted
 CHECK_DEADLOCK FALSE
 INVARIANTS
-  Conf_OpSucceeded
+  Gap_OpSucceeded
   C20_BfdHelperSet
   C20_BfdHelperParams
   C20_BfdNoGoroutineLeak
